@@ -1,8 +1,10 @@
 import FrappyProofs.Lemmas.StateMachineInv
 /-
 The busy clause: a second invariant carried through every definition of the model (mixin mode, `hasStates = true`).
-`engaged → busy status`, `not engaged → status = idle status`, the observer's `idle` is the machine's `idle_status`;
-with it every status report the model appends satisfies `okBusy` and `okFinal`.
+`engaged and no status declared that is not busy → busy status`, `not engaged → status = idle status`, the observer's
+`idle` is the machine's `idle_status`; with it every status report the model appends satisfies `okBusy` and `okFinal`.
+No assumption about the program or the requests: where the author declares a status that is not busy (`Obs.lax`) the
+clause demands nothing, and what earlier engagements declared does not count.
 
 Requests are atomic with respect to `cycle` here — in the code: `start_machine`, `stop_machine`, `final_status` and
 `StateMachine._new_state` (hook + change of state) run under one lock.
@@ -15,48 +17,44 @@ structure BusyRules (r : Rules) : Prop where
   attached : ∀ s st, r.statusOf s = some st → isBusy r st = true
   busy : r.busy < r.error
 
-/-- a request keeps to busy status codes (the `status=` override of `start_machine`) -/
-def busyReq (r : Rules) : Req → Prop
-  | .start _ _ _ (some st) => isBusy r st = true
-  | _ => True
+theorem nonBusy_false {r : Rules} {x : Option Status} (h : nonBusy r x = false) (st : Status) (hx : x = some st) :
+    isBusy r st = true := by
+  subst hx; simpa [nonBusy] using h
 
-/-- the requests a program issues (from inside its functions, and from other threads) keep to busy status codes -/
-structure BusyProg (r : Rules) (P : Prog) : Prop where
-  state : ∀ tr s, ∀ q ∈ (P.state tr s).posts, busyReq r q
-  clean : ∀ tr c, ∀ q ∈ (P.clean tr c).posts, busyReq r q
-  env : ∀ n, ∀ q ∈ P.env n, busyReq r q
-
-theorem getStatus_busy {r : Rules} (hr : BusyRules r) (s : Sid) (d : Nat) (hd : r.busy ≤ d ∧ d < r.error) :
-    isBusy r (getStatus r s d) = true := by
+theorem getStatus_busy {r : Rules} (s : Sid) (d : Nat) (hd : r.busy ≤ d ∧ d < r.error)
+    (hs : nonBusy r (r.statusOf s) = false) : isBusy r (getStatus r s d) = true := by
   unfold getStatus
   cases h : r.statusOf s with
-  | some st => exact hr.attached s st h
+  | some st => exact nonBusy_false hs st h
   | none => simp [isBusy, hd.1, hd.2]
 
-/-- `start_machine` assigns a busy status (any target state, machine active or not, a busy override or none) -/
-theorem startStatus_busy {r : Rules} (hr : BusyRules r) (active : Bool) (s : Sid) (ovr : Option Status)
-    (hovr : ∀ st, ovr = some st → isBusy r st = true) : isBusy r (startStatus r active s ovr) = true := by
-  have hg := getStatus_busy hr s r.busy ⟨Nat.le_refl _, hr.busy⟩
+/-- `start_machine` assigns a busy status unless the override or the status attached to the start state is not busy -/
+theorem startStatus_busy {r : Rules} (hb : r.busy < r.error) (active : Bool) (s : Sid) (ovr : Option Status)
+    (hovr : nonBusy r ovr = false) (hs : nonBusy r (r.statusOf s) = false) :
+    isBusy r (startStatus r active s ovr) = true := by
+  have hg := getStatus_busy s r.busy ⟨Nat.le_refl _, hb⟩ hs
   unfold startStatus
   cases ovr with
-  | some st => exact hovr st rfl
+  | some st => exact nonBusy_false hovr st rfl
   | none =>
     cases active with
     | false => exact hg
     | true => simpa [isBusy] using hg
 
-/-- `stop_machine` keeps the status busy while the machine is still active -/
-theorem stopStatus_busy {r : Rules} (hr : BusyRules r) (cur : Sid) (status : Status)
-    (hs : isBusy r status = true) : isBusy r (stopStatus r cur status) = true := by
+/-- `stop_machine` keeps the status busy while the machine is still active (unless the active state declares otherwise) -/
+theorem stopStatus_busy {r : Rules} (cur : Sid) (status : Status)
+    (hs : isBusy r status = true) (hc : nonBusy r (r.statusOf cur) = false) : isBusy r (stopStatus r cur status) = true := by
   have hd : r.busy ≤ status.1 ∧ status.1 < r.error := by simpa [isBusy] using hs
-  have hg := getStatus_busy hr cur status.1 hd
+  have hg := getStatus_busy cur status.1 hd hc
   unfold stopStatus
   simpa [isBusy] using hg
 
 /-- a transition after which the module is still engaged (a state is entered, or a start is waiting) assigns a busy
-status or leaves the (busy) status alone -/
-theorem transitionStatus_busy {r : Rules} (hr : BusyRules r) (status idle : Status) (p : Pending)
+status or leaves the (busy) status alone — unless the state entered / the start state waiting declares otherwise -/
+theorem transitionStatus_busy {r : Rules} (hb : r.busy < r.error) (status idle : Status) (p : Pending)
     (ns : Option Sid) (hs : ns.isSome = true → isBusy r status = true) (heng : ns.isSome = true ∨ ∃ s, p = .start s)
+    (hns : ∀ s, ns = some s → nonBusy r (r.statusOf s) = false)
+    (hp : ∀ s, p = .start s → nonBusy r (r.statusOf s) = false)
     (st : Status) (h : transitionStatus r status idle p ns = some st) : isBusy r st = true := by
   unfold transitionStatus at h
   cases ns with
@@ -66,7 +64,7 @@ theorem transitionStatus_busy {r : Rules} (hr : BusyRules r) (status idle : Stat
     cases hso : r.statusOf s with
     | none => cases p <;> simp [hso] at h
     | some st0 =>
-      have h0 := hr.attached s st0 hso
+      have h0 := nonBusy_false (hns s rfl) st0 hso
       have hd0 : r.busy ≤ st0.1 ∧ st0.1 < r.error := by simpa [isBusy] using h0
       cases p with
       | none => simp [hso] at h; rw [← h]; exact h0
@@ -79,7 +77,7 @@ theorem transitionStatus_busy {r : Rules} (hr : BusyRules r) (status idle : Stat
   | none =>
     rcases heng with hh | ⟨s', rfl⟩
     · cases hh
-    · simp at h; rw [← h]; exact getStatus_busy hr s' r.busy ⟨Nat.le_refl _, hr.busy⟩
+    · simp at h; rw [← h]; exact getStatus_busy s' r.busy ⟨Nat.le_refl _, hb⟩ (hp s' rfl)
 
 /-- the transition that makes the module idle (machine inactive, no start waiting) assigns the final / stopped status -/
 theorem transitionStatus_final (r : Rules) (status idle : Status) (p : Pending)
@@ -90,10 +88,53 @@ theorem transitionStatus_final (r : Rules) (status idle : Status) (p : Pending)
   | stop => rfl
   | start s => exact absurd rfl (hp s)
 
+/-! ### what "no status declared that is not busy" gives -/
+
+theorem lax_false {r : Rules} {o : Obs} (h : o.lax r = false) :
+    nonBusy r o.override = false ∧ ∀ s, s ∈ o.declared → nonBusy r (r.statusOf s) = false := by
+  unfold Obs.lax at h
+  rw [Bool.or_eq_false_iff, List.any_eq_false] at h
+  exact ⟨h.1, fun s hs => by simpa using h.2 s hs⟩
+
+theorem lax_of {r : Rules} {o : Obs} (h1 : nonBusy r o.override = false)
+    (h2 : ∀ s, s ∈ o.declared → nonBusy r (r.statusOf s) = false) : o.lax r = false := by
+  unfold Obs.lax
+  rw [Bool.or_eq_false_iff, List.any_eq_false]
+  exact ⟨h1, fun s hs => by simp [h2 s hs]⟩
+
+theorem lax_congr {r : Rules} {o o' : Obs} (h1 : o'.declared = o.declared) (h2 : o'.override = o.override) :
+    o'.lax r = o.lax r := by
+  unfold Obs.lax; rw [h1, h2]
+
+/-- more declared, same override: the larger engagement being strict makes the smaller one strict -/
+theorem lax_mono {r : Rules} {o o' : Obs} (h1 : ∀ s, s ∈ o.declared → s ∈ o'.declared) (h2 : o'.override = o.override)
+    (h : o'.lax r = false) : o.lax r = false := by
+  obtain ⟨a, b⟩ := lax_false h
+  exact lax_of (by rw [← h2]; exact a) (fun s hs => b s (h1 s hs))
+
 /-! ### the invariant -/
 
 /-- both conditions of the busy clause -/
 def okB (r : Rules) (o : Obs) (e : Ev) : Bool := okBusy r o e && okFinal o e
+
+theorem okB_other {r : Rules} (o : Obs) {e : Ev} (he : ∀ st, e ≠ .status st) : okB r o e = true := by
+  cases e <;> first | rfl | exact absurd rfl (he _)
+
+theorem okB_status {r : Rules} {o : Obs} {st : Status} (hreq : o.requesting = 0)
+    (hb : o.engaged = true → o.lax r = false → isBusy r st = true) (hf : o.engaged = false → st = o.idle) :
+    okB r o (.status st) = true := by
+  simp only [okB, okBusy, okFinal, hreq, Nat.lt_irrefl, if_false]
+  cases he : o.engaged with
+  | false => simp [hf he]
+  | true =>
+    cases hl : o.lax r with
+    | false => simp [hb he hl]
+    | true => simp
+
+/-- … while a start request is being issued -/
+theorem okB_status_requesting {r : Rules} {o : Obs} {st : Status} (hreq : 0 < o.requesting) :
+    okB r o (.status st) = true := by
+  simp [okB, okBusy, okFinal, hreq]
 
 /-- the module is engaged: a state function is active, a start is waiting, or a start was taken and is being entered -/
 def eng (tk : Option Req) (σ : SM) : Bool := σ.statefunc.isSome || isStartReq σ.nextTask || tk.isSome
@@ -104,24 +145,32 @@ structure BI (idle : Status) (r : Rules) (tk : Option Req) (σ : SM) : Prop wher
   pending : (ob idle σ).pending = σ.nextTask
   taken : (ob idle σ).taken = tk
   requesting : (ob idle σ).requesting = 0
-  idle : (ob idle σ).idle = σ.idleStatus
-  busy : eng tk σ = true → isBusy r σ.status = true
+  idl : (ob idle σ).idle = σ.idleStatus
+  curDecl : ∀ s, σ.statefunc = some s → s ∈ (ob idle σ).declared
+  pendDecl : ∀ s, startState σ.nextTask = some s → s ∈ (ob idle σ).declared
+  busy : eng tk σ = true → (ob idle σ).lax r = false → isBusy r σ.status = true
   final : eng tk σ = false → σ.status = σ.idleStatus
 
 variable {idle : Status} {r : Rules} {tk : Option Req}
+
+theorem BI.engaged {σ : SM} (h : BI idle r tk σ) : (ob idle σ).engaged = eng tk σ := by
+  unfold Obs.engaged eng
+  rw [h.cur, h.pending, h.taken]
 
 /-- changing fields the invariant does not look at -/
 theorem bi_congr {σ σ' : SM} (htr : σ'.trace = σ.trace) (hsf : σ'.statefunc = σ.statefunc)
     (hnt : σ'.nextTask = σ.nextTask) (hst : σ'.status = σ.status) (hid : σ'.idleStatus = σ.idleStatus)
     (h : BI idle r tk σ) : BI idle r tk σ' := by
   have ho : ob idle σ' = ob idle σ := by unfold ob; rw [htr]
-  refine ⟨?_, ?_, ?_, ?_, ?_, ?_, ?_, ?_⟩ <;> simp only [ho, htr, hsf, hnt, hst, hid, eng]
+  refine ⟨?_, ?_, ?_, ?_, ?_, ?_, ?_, ?_, ?_, ?_⟩ <;> simp only [ho, htr, hsf, hnt, hst, hid, eng]
   · exact h.good
   · exact h.cur
   · exact h.pending
   · exact h.taken
   · exact h.requesting
-  · exact h.idle
+  · exact h.idl
+  · exact h.curDecl
+  · exact h.pendDecl
   · exact h.busy
   · exact h.final
 
@@ -143,46 +192,64 @@ theorem bi_neutral {σ σ' : SM} {e : Ev} (he : neutralEv e = true) (htr : σ'.t
     (hid : σ'.idleStatus = σ.idleStatus) (h : BI idle r tk σ) : BI idle r tk σ' := by
   have hg := h.good
   have key : ∀ o : Obs, okB r o e = true ∧ (o.step e).cur = o.cur ∧ (o.step e).pending = o.pending ∧
-      (o.step e).taken = o.taken ∧ (o.step e).requesting = o.requesting ∧ (o.step e).idle = o.idle := by
+      (o.step e).taken = o.taken ∧ (o.step e).requesting = o.requesting ∧ (o.step e).idle = o.idle ∧
+      (o.step e).declared = o.declared ∧ (o.step e).override = o.override := by
     intro o
     cases e with
     | ret rr fin => cases fin <;> simp [neutralEv] at he <;> simp [okB, okBusy, okFinal, Obs.step]
     | reqDone b => cases b <;> simp [okB, okBusy, okFinal, Obs.step]
     | _ => first | (simp [neutralEv] at he; done) | simp [okB, okBusy, okFinal, Obs.step]
-  obtain ⟨k0, k1, k2, k3, k4, k5⟩ := key (observe idle σ.trace)
-  refine ⟨?_, ?_, ?_, ?_, ?_, ?_, ?_, ?_⟩ <;> simp only [ob, htr, observe_snoc, always_snoc, hsf, hnt, hst, hid, eng]
+  obtain ⟨k0, k1, k2, k3, k4, k5, k6, k7⟩ := key (observe idle σ.trace)
+  have kl : ((observe idle σ.trace).step e).lax r = (observe idle σ.trace).lax r := lax_congr k6 k7
+  refine ⟨?_, ?_, ?_, ?_, ?_, ?_, ?_, ?_, ?_, ?_⟩ <;> simp only [ob, htr, observe_snoc, always_snoc, hsf, hnt, hst, hid, eng]
   · exact ⟨hg, k0⟩
   · rw [k1]; exact h.cur
   · rw [k2]; exact h.pending
   · rw [k3]; exact h.taken
   · rw [k4]; exact h.requesting
-  · rw [k5]; exact h.idle
-  · exact h.busy
+  · rw [k5]; exact h.idl
+  · rw [k6]; exact h.curDecl
+  · rw [k6]; exact h.pendDecl
+  · rw [kl]; exact h.busy
   · exact h.final
 
 /-! ### requests (mixin: `start_machine`, `stop_machine` as a whole) -/
 
-theorem bi_startMachine (cfg : Cfg) (hr : BusyRules cfg.rules) {σ : SM} (h : BI idle cfg.rules tk σ) (s cl kw ovr)
-    (hq : busyReq cfg.rules (.start s cl kw ovr)) :
+theorem bi_startMachine (cfg : Cfg) (hb : cfg.rules.busy < cfg.rules.error) {σ : SM} (h : BI idle cfg.rules tk σ) (s cl kw ovr) :
     BI idle cfg.rules tk (startMachine cfg σ s cl kw ovr) ∧ (startMachine cfg σ s cl kw ovr).statefunc = σ.statefunc := by
   have hg := h.good
-  have hb : isBusy cfg.rules (startStatus cfg.rules σ.statefunc.isSome s ovr) = true := by
-    apply startStatus_busy hr
-    intro st hst; subst hst; exact hq
-  have h4 := h.requesting; have h5 := h.idle; have h3 := h.taken; have h1 := h.cur
+  have h4 := h.requesting; have h5 := h.idl; have h3 := h.taken; have h1 := h.cur
   simp only [ob] at h1 h3 h4 h5
-  refine ⟨⟨?_, ?_, ?_, ?_, ?_, ?_, ?_, ?_⟩, rfl⟩ <;>
-    simp only [startMachine, startMachineA, startMachineB, post, SM.log, ob, observe_snoc, Obs.step, always_snoc, eng]
-  · refine ⟨⟨⟨⟨hg, ?_⟩, ?_⟩, ?_⟩, ?_⟩ <;>
-      simp [okB, okBusy, okFinal, Obs.engaged, isStartReq, isStart, h4, hb]
-  · exact h1
-  · exact h3
-  · simp [h4, isStart]
-  · exact h5
-  · intro _; exact hb
+  -- the observer after `reqStart` and the post
+  generalize ho2 : ((observe idle σ.trace).step .reqStart).step (.post (.start s cl kw ovr)) = o2
+  have o2req : o2.requesting = 0 := by rw [← ho2]; simp [Obs.step, isStart, h4]
+  have o2decl : o2.declared = s :: σ.statefunc.toList := by rw [← ho2]; simp [Obs.step, h1]
+  have o2ovr : o2.override = ovr := by rw [← ho2]; simp [Obs.step]
+  have o2cur : o2.cur = σ.statefunc := by rw [← ho2]; simp [Obs.step, h1]
+  have o2pend : o2.pending = some (.start s cl kw ovr) := by rw [← ho2]; simp [Obs.step]
+  have o2tk : o2.taken = tk := by rw [← ho2]; simp [Obs.step, h3]
+  have o2idle : o2.idle = σ.idleStatus := by rw [← ho2]; simp [Obs.step, h5]
+  have hbusy : o2.lax cfg.rules = false → isBusy cfg.rules (startStatus cfg.rules σ.statefunc.isSome s ovr) = true := by
+    intro hl
+    obtain ⟨a, b⟩ := lax_false hl
+    exact startStatus_busy hb _ s ovr (by rw [← o2ovr]; exact a) (b s (by rw [o2decl]; simp))
+  have o2eng : o2.engaged = true := by simp [Obs.engaged, o2pend, isStartReq]
+  refine ⟨⟨?_, ?_, ?_, ?_, ?_, ?_, ?_, ?_, ?_, ?_⟩, rfl⟩ <;>
+    simp only [startMachine, startMachineA, startMachineB, post, SM.log, ob, observe_snoc, always_snoc, eng, ho2]
+  · refine ⟨⟨⟨⟨hg, okB_other _ (by intro st hh; cases hh)⟩, okB_other _ (by intro st hh; cases hh)⟩, ?_⟩,
+      okB_other _ (by intro st hh; cases hh)⟩
+    exact okB_status o2req (fun _ hl => hbusy hl) (fun he => by rw [o2eng] at he; cases he)
+  · simp only [Obs.step]; exact o2cur
+  · simp only [Obs.step]; exact o2pend
+  · simp only [Obs.step]; exact o2tk
+  · simp only [Obs.step]; rw [o2req]
+  · simp only [Obs.step]; exact o2idle
+  · intro s' hs'; simp only [Obs.step]; rw [o2decl, hs']; simp
+  · intro s' hs'; simp only [Obs.step]; rw [o2decl]; simp only [startState] at hs'; cases hs'; simp
+  · intro _ hl; simp only [Obs.step] at hl; exact hbusy hl
   · simp [isStartReq]
 
-theorem bi_stopMachine (cfg : Cfg) (hr : BusyRules cfg.rules) {σ : SM} (h : BI idle cfg.rules tk σ) (st : Status) :
+theorem bi_stopMachine (cfg : Cfg) {σ : SM} (h : BI idle cfg.rules tk σ) (st : Status) :
     BI idle cfg.rules tk (stopMachine cfg σ st) ∧ (stopMachine cfg σ st).statefunc = σ.statefunc := by
   have h0 : BI idle cfg.rules tk (σ.log .reqStop) := bi_neutral (e := .reqStop) rfl rfl rfl rfl rfl rfl h
   unfold stopMachine
@@ -193,49 +260,66 @@ theorem bi_stopMachine (cfg : Cfg) (hr : BusyRules cfg.rules) {σ : SM} (h : BI 
   · exact ⟨bi_neutral (e := .reqDone false) rfl rfl rfl rfl rfl rfl h0, hsf0⟩
   · rename_i cur hsf
     have hg := h0.good
-    have hbusy : isBusy cfg.rules σ0.status = true := h0.busy (by simp [eng, hsf])
-    have hb := stopStatus_busy hr cur σ0.status hbusy
-    have h4 := h0.requesting; have h3 := h0.taken; have h1 := h0.cur
-    simp only [ob] at h1 h3 h4
+    have h4 := h0.requesting; have h3 := h0.taken; have h1 := h0.cur; have h2 := h0.pending
+    simp only [ob] at h1 h2 h3 h4
+    generalize ho1 : (observe idle σ0.trace).step (.post (.stop st)) = o1
+    have o1req : o1.requesting = 0 := by rw [← ho1]; simp [Obs.step, isStart, h4]
+    have o1decl : o1.declared = (observe idle σ0.trace).declared := by rw [← ho1]; simp [Obs.step]
+    have o1ovr : o1.override = (observe idle σ0.trace).override := by rw [← ho1]; simp [Obs.step]
+    have o1cur : o1.cur = σ0.statefunc := by rw [← ho1]; simp [Obs.step, h1]
+    have o1pend : o1.pending = some (.stop st) := by rw [← ho1]; simp [Obs.step]
+    have o1tk : o1.taken = tk := by rw [← ho1]; simp [Obs.step, h3]
+    have o1idle : o1.idle = st := by rw [← ho1]; simp [Obs.step]
+    have o1lax : o1.lax cfg.rules = (observe idle σ0.trace).lax cfg.rules := lax_congr o1decl o1ovr
+    have o1eng : o1.engaged = true := by simp [Obs.engaged, o1cur, hsf]
+    have hbusy : o1.lax cfg.rules = false → isBusy cfg.rules (stopStatus cfg.rules cur σ0.status) = true := by
+      intro hl
+      rw [o1lax] at hl
+      have hl' : (ob idle σ0).lax cfg.rules = false := hl
+      exact stopStatus_busy cur σ0.status (h0.busy (by simp [eng, hsf]) hl')
+        ((lax_false hl').2 cur (h0.curDecl cur hsf))
     refine ⟨bi_neutral (e := .reqDone false) rfl rfl rfl rfl rfl rfl (σ := SM.log _ (.status _)) ?_, hsf0⟩
-    refine ⟨?_, ?_, ?_, ?_, ?_, ?_, ?_, ?_⟩ <;>
-      simp only [post, SM.log, ob, observe_snoc, Obs.step, always_snoc, eng]
-    · refine ⟨⟨hg, ?_⟩, ?_⟩ <;>
-        simp [okB, okBusy, okFinal, Obs.engaged, isStart, h4, h1, hsf, hb]
-    · exact h1
-    · exact h3
-    · simp [h4, isStart]
-    · intro _; exact hb
+    refine ⟨?_, ?_, ?_, ?_, ?_, ?_, ?_, ?_, ?_, ?_⟩ <;>
+      simp only [post, SM.log, ob, observe_snoc, always_snoc, eng, ho1]
+    · exact ⟨⟨hg, okB_other _ (by intro st hh; cases hh)⟩,
+        okB_status o1req (fun _ hl => hbusy hl) (fun he => by rw [o1eng] at he; cases he)⟩
+    · simp only [Obs.step]; exact o1cur
+    · simp only [Obs.step]; exact o1pend
+    · simp only [Obs.step]; exact o1tk
+    · simp only [Obs.step]; exact o1req
+    · simp only [Obs.step]; exact o1idle
+    · intro s' hs'; simp only [Obs.step]; rw [o1decl]; exact h0.curDecl s' hs'
+    · intro s' hs'; simp [startState] at hs'
+    · intro _ hl; simp only [Obs.step] at hl; exact hbusy hl
     · simp [hsf]
 
 /-- one request to the module -/
-theorem bi_request (cfg : Cfg) (hs : cfg.hasStates = true) (hr : BusyRules cfg.rules) {σ : SM}
-    (h : BI idle cfg.rules tk σ) (q : Req) (hq : busyReq cfg.rules q) :
+theorem bi_request (cfg : Cfg) (hs : cfg.hasStates = true) (hb : cfg.rules.busy < cfg.rules.error) {σ : SM}
+    (h : BI idle cfg.rules tk σ) (q : Req) :
     BI idle cfg.rules tk (request cfg σ q) ∧ (request cfg σ q).statefunc = σ.statefunc := by
   unfold request
   simp only [hs, if_true]
   cases q with
-  | start s cl kw ovr => exact bi_startMachine cfg hr h s cl kw ovr hq
-  | stop st => exact bi_stopMachine cfg hr h st
+  | start s cl kw ovr => exact bi_startMachine cfg hb h s cl kw ovr
+  | stop st => exact bi_stopMachine cfg h st
 
-theorem bi_requests (cfg : Cfg) (hs : cfg.hasStates = true) (hr : BusyRules cfg.rules) (rs : List Req) {σ : SM}
-    (h : BI idle cfg.rules tk σ) (hq : ∀ q ∈ rs, busyReq cfg.rules q) :
+theorem bi_requests (cfg : Cfg) (hs : cfg.hasStates = true) (hb : cfg.rules.busy < cfg.rules.error) (rs : List Req) {σ : SM}
+    (h : BI idle cfg.rules tk σ) :
     BI idle cfg.rules tk (requests cfg σ rs) ∧ (requests cfg σ rs).statefunc = σ.statefunc := by
   unfold requests
   induction rs generalizing σ with
   | nil => exact ⟨h, rfl⟩
   | cons q rs ih =>
     simp only [List.foldl_cons]
-    obtain ⟨h1, e1⟩ := bi_request cfg hs hr h q (hq q (by simp))
-    obtain ⟨h2, e2⟩ := ih h1 (fun q' hq' => hq q' (by simp [hq']))
+    obtain ⟨h1, e1⟩ := bi_request cfg hs hb h q
+    obtain ⟨h2, e2⟩ := ih h1
     exact ⟨h2, e2.trans e1⟩
 
-theorem bi_absorb (cfg : Cfg) (hs : cfg.hasStates = true) (hr : BusyRules cfg.rules) (P : Prog)
-    (hP : BusyProg cfg.rules P) {σ : SM} (h : BI idle cfg.rules tk σ) :
+theorem bi_absorb (cfg : Cfg) (hs : cfg.hasStates = true) (hb : cfg.rules.busy < cfg.rules.error) (P : Prog)
+    {σ : SM} (h : BI idle cfg.rules tk σ) :
     BI idle cfg.rules tk (absorb cfg P σ) ∧ (absorb cfg P σ).statefunc = σ.statefunc := by
   unfold absorb
-  exact bi_requests cfg hs hr (P.env σ.slot) (bi_congr (σ := σ) (σ' := { σ with slot := σ.slot + 1 }) rfl rfl rfl rfl rfl h)
-    (hP.env σ.slot)
+  exact bi_requests cfg hs hb (P.env σ.slot) (bi_congr (σ := σ) (σ' := { σ with slot := σ.slot + 1 }) rfl rfl rfl rfl rfl h)
 
 /-! ### transitions: the hook of the mixin -/
 
@@ -254,63 +338,94 @@ theorem pendingOf_not_start {nt : Option Req} (h : isStartReq nt = false) : ∀ 
     | start s' cl kw ovr => simp [isStartReq] at h
     | stop st => simp [pendingOf] at hs
 
+theorem pendingOf_startState {nt : Option Req} {s : Sid} (h : pendingOf nt = .start s) : startState nt = some s := by
+  cases nt with
+  | none => simp [pendingOf] at h
+  | some q => cases q with
+    | start s' cl kw ovr => simp [pendingOf] at h; simp [startState, h]
+    | stop st => simp [pendingOf] at h
+
 /-- the status `state_transition` assigns (or leaves) -/
 def hookStatus (r : Rules) (status idleSt : Status) (nt : Option Req) (ns : Option Sid) : Status :=
   match transitionStatus r status idleSt (pendingOf nt) ns with
   | some st => st
   | none => status
 
-theorem hookStatus_ok {r : Rules} (hr : BusyRules r) (status idleSt : Status) (nt : Option Req) (ns : Option Sid)
-    (tk : Option Req) (hb : ns.isSome = true → isBusy r status = true) (hTk : tk.isSome = true → ns.isSome = true) :
-    ((ns.isSome || isStartReq nt || tk.isSome) = true → isBusy r (hookStatus r status idleSt nt ns) = true) ∧
-    ((ns.isSome || isStartReq nt || tk.isSome) = false → hookStatus r status idleSt nt ns = idleSt) := by
+theorem hookStatus_busy {r : Rules} (hb0 : r.busy < r.error) (status idleSt : Status) (nt : Option Req) (ns : Option Sid)
+    (tk : Option Req) (hb : ns.isSome = true → isBusy r status = true) (hTk : tk.isSome = true → ns.isSome = true)
+    (hns : ∀ s, ns = some s → nonBusy r (r.statusOf s) = false)
+    (hp : ∀ s, startState nt = some s → nonBusy r (r.statusOf s) = false)
+    (he : (ns.isSome || isStartReq nt || tk.isSome) = true) : isBusy r (hookStatus r status idleSt nt ns) = true := by
   unfold hookStatus
-  constructor
-  · intro he
-    have heng : ns.isSome = true ∨ ∃ s, pendingOf nt = .start s := by
-      cases hn : ns.isSome with
-      | true => exact Or.inl rfl
+  have heng : ns.isSome = true ∨ ∃ s, pendingOf nt = .start s := by
+    cases hn : ns.isSome with
+    | true => exact Or.inl rfl
+    | false =>
+      cases hq : isStartReq nt with
+      | true => exact Or.inr (pendingOf_start hq)
       | false =>
-        cases hq : isStartReq nt with
-        | true => exact Or.inr (pendingOf_start hq)
-        | false =>
-          cases ht : tk.isSome with
-          | true => rw [hTk ht] at hn; cases hn
-          | false => simp [hn, hq, ht] at he
-    cases hts : transitionStatus r status idleSt (pendingOf nt) ns with
-    | some st' => exact transitionStatus_busy hr status idleSt (pendingOf nt) ns hb heng st' hts
-    | none =>
-      cases ns with
-      | some s => exact hb rfl
-      | none =>
-        exfalso
-        unfold transitionStatus at hts
-        cases hp : pendingOf nt <;> simp [hp] at hts
-  · intro he
-    simp only [Bool.or_eq_false_iff] at he
-    obtain ⟨⟨hn, hq⟩, _⟩ := he
+        cases ht : tk.isSome with
+        | true => rw [hTk ht] at hn; cases hn
+        | false => simp [hn, hq, ht] at he
+  cases hts : transitionStatus r status idleSt (pendingOf nt) ns with
+  | some st' =>
+    exact transitionStatus_busy hb0 status idleSt (pendingOf nt) ns hb heng hns
+      (fun s hs => hp s (pendingOf_startState hs)) st' hts
+  | none =>
     cases ns with
-    | some s => simp at hn
-    | none => rw [transitionStatus_final r status idleSt (pendingOf nt) (pendingOf_not_start hq)]
+    | some s => exact hb rfl
+    | none =>
+      exfalso
+      unfold transitionStatus at hts
+      cases hp' : pendingOf nt <;> simp [hp'] at hts
 
-theorem bi_newState (cfg : Cfg) (hs : cfg.hasStates = true) (hr : BusyRules cfg.rules) (P : Prog)
-    (hP : BusyProg cfg.rules P) {σ : SM} (ns : Option Sid) (h : BI idle cfg.rules tk σ)
+theorem hookStatus_final (r : Rules) (status idleSt : Status) (nt : Option Req) (ns : Option Sid) (tk : Option Req)
+    (he : (ns.isSome || isStartReq nt || tk.isSome) = false) : hookStatus r status idleSt nt ns = idleSt := by
+  unfold hookStatus
+  simp only [Bool.or_eq_false_iff] at he
+  obtain ⟨⟨hn, hq⟩, _⟩ := he
+  cases ns with
+  | some s => simp at hn
+  | none => rw [transitionStatus_final r status idleSt (pendingOf nt) (pendingOf_not_start hq)]
+
+theorem bi_newState (cfg : Cfg) (hs : cfg.hasStates = true) (hb : cfg.rules.busy < cfg.rules.error) (P : Prog)
+    {σ : SM} (ns : Option Sid) (h : BI idle cfg.rules tk σ)
     (hEng : ns.isSome = true → σ.statefunc.isSome = true ∨ tk.isSome = true)
     (hTk : tk.isSome = true → ns.isSome = true) :
     BI idle cfg.rules tk (newState cfg P σ ns) ∧ (newState cfg P σ ns).statefunc = ns := by
-  obtain ⟨h1, e1⟩ := bi_absorb cfg hs hr P hP h
+  obtain ⟨h1, e1⟩ := bi_absorb cfg hs hb P h
   unfold newState
   generalize absorb cfg P σ = τ at h1 e1 ⊢
-  have hb : ns.isSome = true → isBusy cfg.rules τ.status = true := by
-    intro hn
-    apply h1.busy
-    rcases hEng hn with h' | h'
-    · simp [eng, e1, h']
-    · simp [eng, h']
-  obtain ⟨ok1, ok2⟩ := hookStatus_ok hr τ.status τ.idleStatus τ.nextTask ns tk hb hTk
   have hg := h1.good
-  have h1c := h1.cur; have h1p := h1.pending; have h1t := h1.taken; have h1r := h1.requesting; have h1i := h1.idle
+  have h1c := h1.cur; have h1p := h1.pending; have h1t := h1.taken; have h1r := h1.requesting; have h1i := h1.idl
   simp only [ob] at h1c h1p h1t h1r h1i
+  -- the observer after the transition
+  generalize ho1 : (observe idle τ.trace).step (.enter ns) = o1
+  have o1req : o1.requesting = 0 := by rw [← ho1]; simp [Obs.step, h1r]
+  have o1decl : ∀ s, s ∈ (observe idle τ.trace).declared → s ∈ o1.declared := by
+    intro s hs'; rw [← ho1]; cases ns <;> simp [Obs.step, hs']
+  have o1ns : ∀ s, ns = some s → s ∈ o1.declared := by
+    intro s hs'; rw [← ho1, hs']; simp [Obs.step]
+  have o1ovr : o1.override = (observe idle τ.trace).override := by rw [← ho1]; simp [Obs.step]
+  have o1cur : o1.cur = ns := by rw [← ho1]; simp [Obs.step]
+  have o1pend : o1.pending = τ.nextTask := by rw [← ho1]; simp [Obs.step, h1p]
+  have o1tk : o1.taken = tk := by rw [← ho1]; simp [Obs.step, h1t]
+  have o1idle : o1.idle = τ.idleStatus := by rw [← ho1]; simp [Obs.step, h1i]
+  have o1eng : o1.engaged = (ns.isSome || isStartReq τ.nextTask || tk.isSome) := by
+    simp [Obs.engaged, o1cur, o1pend, o1tk]
+  have ok1 : (ns.isSome || isStartReq τ.nextTask || tk.isSome) = true → o1.lax cfg.rules = false →
+      isBusy cfg.rules (hookStatus cfg.rules τ.status τ.idleStatus τ.nextTask ns) = true := by
+    intro he hl
+    have hl0 : (ob idle τ).lax cfg.rules = false := lax_mono o1decl o1ovr hl
+    refine hookStatus_busy hb τ.status τ.idleStatus τ.nextTask ns tk ?_ hTk ?_ ?_ he
+    · intro hn
+      apply h1.busy _ hl0
+      rcases hEng hn with h' | h'
+      · simp [eng, e1, h']
+      · simp [eng, h']
+    · intro s hs'; exact (lax_false hl).2 s (o1ns s hs')
+    · intro s hs'; exact (lax_false hl0).2 s (h1.pendDecl s hs')
+  have ok2 := hookStatus_final cfg.rules τ.status τ.idleStatus τ.nextTask ns tk
   have e : ({ hook cfg τ ns with init := true, statefunc := ns } : SM) =
       { τ with init := true, statefunc := ns, status := hookStatus cfg.rules τ.status τ.idleStatus τ.nextTask ns,
                trace := τ.trace ++ [.enter ns] ++ [.status (hookStatus cfg.rules τ.status τ.idleStatus τ.nextTask ns)] } := by
@@ -318,27 +433,27 @@ theorem bi_newState (cfg : Cfg) (hs : cfg.hasStates = true) (hr : BusyRules cfg.
     cases transitionStatus cfg.rules τ.status τ.idleStatus (pendingOf τ.nextTask) ns <;> rfl
   show BI idle cfg.rules tk ({ hook cfg τ ns with init := true, statefunc := ns } : SM) ∧ _
   rw [e]
-  refine ⟨⟨?_, ?_, ?_, ?_, ?_, ?_, ?_, ?_⟩, rfl⟩ <;>
-    simp only [ob, observe_snoc, Obs.step, always_snoc, eng]
-  · refine ⟨⟨hg, ?_⟩, ?_⟩
-    · simp [okB, okBusy, okFinal]
-    · simp only [okB, okBusy, okFinal, Obs.engaged, h1p, h1t, h1r, h1i, Nat.lt_irrefl, if_false]
-      cases he : (ns.isSome || isStartReq τ.nextTask || tk.isSome) with
-      | true => simp [ok1 he]
-      | false => simp [ok2 he]
-  · exact h1p
-  · exact h1t
-  · exact h1r
-  · exact h1i
-  · exact ok1
+  refine ⟨⟨?_, ?_, ?_, ?_, ?_, ?_, ?_, ?_, ?_, ?_⟩, rfl⟩ <;>
+    simp only [ob, observe_snoc, always_snoc, eng, ho1]
+  · exact ⟨⟨hg, okB_other _ (by intro st hh; cases hh)⟩,
+      okB_status o1req (fun he hl => ok1 (by rw [← o1eng]; exact he) hl)
+        (fun he => by rw [o1idle]; exact ok2 (by rw [← o1eng]; exact he))⟩
+  · simp only [Obs.step]; exact o1cur
+  · simp only [Obs.step]; exact o1pend
+  · simp only [Obs.step]; exact o1tk
+  · simp only [Obs.step]; exact o1req
+  · simp only [Obs.step]; exact o1idle
+  · intro s hs'; simp only [Obs.step]; exact o1ns s hs'
+  · intro s hs'; simp only [Obs.step]; exact o1decl s (h1.pendDecl s hs')
+  · intro he hl; simp only [Obs.step] at hl; exact ok1 he hl
   · exact ok2
 
 /-! ### user functions and `_cleanup` -/
 
-theorem bi_applyOutcome (cfg : Cfg) (hs : cfg.hasStates = true) (hr : BusyRules cfg.rules) {σ : SM} (o : Outcome)
-    (h : BI idle cfg.rules tk σ) (hq : ∀ q ∈ o.posts, busyReq cfg.rules q) (hsf : σ.statefunc.isSome = true) :
+theorem bi_applyOutcome (cfg : Cfg) (hs : cfg.hasStates = true) (hb : cfg.rules.busy < cfg.rules.error) {σ : SM} (o : Outcome)
+    (h : BI idle cfg.rules tk σ) (hsf : σ.statefunc.isSome = true) :
     BI idle cfg.rules tk (applyOutcome cfg σ o) ∧ (applyOutcome cfg σ o).statefunc = σ.statefunc := by
-  obtain ⟨h1, e1⟩ := bi_requests cfg hs hr o.posts h hq
+  obtain ⟨h1, e1⟩ := bi_requests cfg hs hb o.posts h
   unfold applyOutcome
   generalize requests cfg σ o.posts = τ at h1 e1 ⊢
   have hsf1 : τ.statefunc.isSome = true := by rw [e1]; exact hsf
@@ -349,18 +464,23 @@ theorem bi_applyOutcome (cfg : Cfg) (hs : cfg.hasStates = true) (hr : BusyRules 
   | some st =>
     simp only [applyFin]
     have hg := h1.good
-    refine ⟨⟨?_, ?_, ?_, ?_, ?_, ?_, ?_, ?_⟩, e1⟩ <;>
-      simp only [SM.log, ob, observe_snoc, Obs.step, always_snoc, eng]
-    · exact ⟨hg, by simp [okB, okBusy, okFinal]⟩
-    · exact h1.cur
-    · exact h1.pending
-    · exact h1.taken
-    · exact h1.requesting
-    · intro he; exact h1.busy he
+    have kl : ((observe idle τ.trace).step (.ret o.ret (some st))).lax cfg.rules = (observe idle τ.trace).lax cfg.rules :=
+      lax_congr (by simp only [Obs.step]) (by simp only [Obs.step])
+    refine ⟨⟨?_, ?_, ?_, ?_, ?_, ?_, ?_, ?_, ?_, ?_⟩, e1⟩ <;>
+      simp only [SM.log, ob, observe_snoc, always_snoc, eng]
+    · exact ⟨hg, okB_other _ (by intro st hh; cases hh)⟩
+    · simp only [Obs.step]; exact h1.cur
+    · simp only [Obs.step]; exact h1.pending
+    · simp only [Obs.step]; exact h1.taken
+    · simp only [Obs.step]; exact h1.requesting
+    · simp only [Obs.step]
+    · intro s hs'; simp only [Obs.step]; exact h1.curDecl s hs'
+    · intro s hs'; simp only [Obs.step]; exact h1.pendDecl s hs'
+    · intro he hl; rw [kl] at hl; exact h1.busy he hl
     · intro he; simp [hsf1] at he
 
-theorem bi_doCleanup (cfg : Cfg) (hs : cfg.hasStates = true) (hr : BusyRules cfg.rules) (P : Prog)
-    (hP : BusyProg cfg.rules P) {σ : SM} (k : IKind) (h : BI idle cfg.rules tk σ) (hsf : σ.statefunc.isSome = true) :
+theorem bi_doCleanup (cfg : Cfg) (hs : cfg.hasStates = true) (hb : cfg.rules.busy < cfg.rules.error) (P : Prog)
+    {σ : SM} (k : IKind) (h : BI idle cfg.rules tk σ) (hsf : σ.statefunc.isSome = true) :
     BI idle cfg.rules tk (doCleanup cfg P σ k).σ ∧ (doCleanup cfg P σ k).σ.statefunc = σ.statefunc := by
   have h1 : BI idle cfg.rules tk (setReason (σ.log (.interrupt k)) k) ∧
       (setReason (σ.log (.interrupt k)) k).statefunc = σ.statefunc := by
@@ -378,8 +498,8 @@ theorem bi_doCleanup (cfg : Cfg) (hs : cfg.hasStates = true) (hr : BusyRules cfg
   · rename_i c _
     have h2 : BI idle cfg.rules tk ({ τ with cleanup := none }.log (.cleanup c)) :=
       bi_neutral (e := .cleanup c) (σ := τ) rfl rfl rfl rfl rfl rfl h1
-    obtain ⟨h3, e3⟩ := bi_applyOutcome cfg hs hr (P.clean ({ τ with cleanup := none }.log (.cleanup c)).trace c) h2
-      (hP.clean _ c) (by show τ.statefunc.isSome = true; rw [e1]; exact hsf)
+    obtain ⟨h3, e3⟩ := bi_applyOutcome cfg hs hb (P.clean ({ τ with cleanup := none }.log (.cleanup c)).trace c) h2
+      (by show τ.statefunc.isSome = true; rw [e1]; exact hsf)
     exact ⟨h3, e3.trans e1⟩
 
 /-! ### the body of the inner loop -/
@@ -389,21 +509,21 @@ def StepB (idle : Status) (r : Rules) : Step → Prop
   | .brk τ => BI idle r none τ
   | .cont τ => BI idle r none τ ∧ τ.statefunc.isSome = true
 
-theorem stepB_afterCleanup (cfg : Cfg) (hs : cfg.hasStates = true) (hr : BusyRules cfg.rules) (P : Prog)
-    (hP : BusyProg cfg.rules P) (c : CRes) (h : BI idle cfg.rules none c.σ) (hsf : c.σ.statefunc.isSome = true) :
+theorem stepB_afterCleanup (cfg : Cfg) (hs : cfg.hasStates = true) (hb : cfg.rules.busy < cfg.rules.error) (P : Prog)
+    (c : CRes) (h : BI idle cfg.rules none c.σ) (hsf : c.σ.statefunc.isSome = true) :
     StepB idle cfg.rules (afterCleanup cfg P c) := by
   unfold afterCleanup
   split
   · exact h
   · rename_i s _
-    obtain ⟨h1, e1⟩ := bi_newState cfg hs hr P hP (some s) h (fun _ => Or.inl hsf) (fun hh => by cases hh)
+    obtain ⟨h1, e1⟩ := bi_newState cfg hs hb P (some s) h (fun _ => Or.inl hsf) (fun hh => by cases hh)
     exact ⟨h1, by rw [e1]; rfl⟩
 
-theorem stepB_callState (cfg : Cfg) (hs : cfg.hasStates = true) (hr : BusyRules cfg.rules) (P : Prog)
-    (hP : BusyProg cfg.rules P) {σ : SM} (s : Sid) (h : BI idle cfg.rules none σ) (hsf : σ.statefunc = some s) :
+theorem stepB_callState (cfg : Cfg) (hs : cfg.hasStates = true) (hb : cfg.rules.busy < cfg.rules.error) (P : Prog)
+    {σ : SM} (s : Sid) (h : BI idle cfg.rules none σ) (hsf : σ.statefunc = some s) :
     StepB idle cfg.rules (callState cfg P σ s) := by
   have h1 : BI idle cfg.rules none (σ.log (.call s σ.init)) := bi_neutral (e := .call s σ.init) rfl rfl rfl rfl rfl rfl h
-  obtain ⟨h2, e2⟩ := bi_applyOutcome cfg hs hr (P.state (σ.log (.call s σ.init)).trace s) h1 (hP.state _ s)
+  obtain ⟨h2, e2⟩ := bi_applyOutcome cfg hs hb (P.state (σ.log (.call s σ.init)).trace s) h1
     (by show σ.statefunc.isSome = true; simp [hsf])
   unfold callState
   simp only
@@ -415,33 +535,33 @@ theorem stepB_callState (cfg : Cfg) (hs : cfg.hasStates = true) (hr : BusyRules 
   | retry => exact h3
   | finish => exact h3
   | next s' =>
-    obtain ⟨h4, e4⟩ := bi_newState cfg hs hr P hP (some s') h3 (fun _ => Or.inl hsf2) (fun hh => by cases hh)
+    obtain ⟨h4, e4⟩ := bi_newState cfg hs hb P (some s') h3 (fun _ => Or.inl hsf2) (fun hh => by cases hh)
     exact ⟨h4, by rw [e4]; rfl⟩
   | bad =>
-    obtain ⟨h4, e4⟩ := bi_doCleanup cfg hs hr P hP .error h3 hsf2
-    exact stepB_afterCleanup cfg hs hr P hP _ h4 (by rw [e4]; exact hsf2)
+    obtain ⟨h4, e4⟩ := bi_doCleanup cfg hs hb P .error h3 hsf2
+    exact stepB_afterCleanup cfg hs hb P _ h4 (by rw [e4]; exact hsf2)
   | raise =>
-    obtain ⟨h4, e4⟩ := bi_doCleanup cfg hs hr P hP .error h2 hsf2
-    exact stepB_afterCleanup cfg hs hr P hP _ h4 (by rw [e4]; exact hsf2)
+    obtain ⟨h4, e4⟩ := bi_doCleanup cfg hs hb P .error h2 hsf2
+    exact stepB_afterCleanup cfg hs hb P _ h4 (by rw [e4]; exact hsf2)
 
-theorem stepB_interruptArm (cfg : Cfg) (hs : cfg.hasStates = true) (hr : BusyRules cfg.rules) (P : Prog)
-    (hP : BusyProg cfg.rules P) {σ : SM} (h : BI idle cfg.rules none σ) (hsf : σ.statefunc.isSome = true) :
+theorem stepB_interruptArm (cfg : Cfg) (hs : cfg.hasStates = true) (hb : cfg.rules.busy < cfg.rules.error) (P : Prog)
+    {σ : SM} (h : BI idle cfg.rules none σ) (hsf : σ.statefunc.isSome = true) :
     StepB idle cfg.rules (interruptArm cfg P σ) := by
-  obtain ⟨h1, e1⟩ := bi_absorb cfg hs hr P hP h
+  obtain ⟨h1, e1⟩ := bi_absorb cfg hs hb P h
   unfold interruptArm
   simp only
   generalize absorb cfg P σ = τ at h1 e1 ⊢
   have hsf1 : τ.statefunc.isSome = true := by rw [e1]; exact hsf
   split
   · rename_i t _
-    obtain ⟨h2, e2⟩ := bi_doCleanup cfg hs hr P hP (kindOf t) h1 hsf1
-    exact stepB_afterCleanup cfg hs hr P hP _ h2 (by rw [e2]; exact hsf1)
+    obtain ⟨h2, e2⟩ := bi_doCleanup cfg hs hb P (kindOf t) h1 hsf1
+    exact stepB_afterCleanup cfg hs hb P _ h2 (by rw [e2]; exact hsf1)
   · exact h1
 
-theorem stepB_stepOnce (cfg : Cfg) (hs : cfg.hasStates = true) (hr : BusyRules cfg.rules) (P : Prog)
-    (hP : BusyProg cfg.rules P) {σ : SM} (h : BI idle cfg.rules none σ) :
+theorem stepB_stepOnce (cfg : Cfg) (hs : cfg.hasStates = true) (hb : cfg.rules.busy < cfg.rules.error) (P : Prog)
+    {σ : SM} (h : BI idle cfg.rules none σ) :
     StepB idle cfg.rules (stepOnce cfg P σ) := by
-  obtain ⟨h1, _⟩ := bi_absorb cfg hs hr P hP h
+  obtain ⟨h1, _⟩ := bi_absorb cfg hs hb P h
   unfold stepOnce
   simp only
   generalize absorb cfg P σ = τ at h1 ⊢
@@ -449,21 +569,21 @@ theorem stepB_stepOnce (cfg : Cfg) (hs : cfg.hasStates = true) (hr : BusyRules c
   · exact h1
   · rename_i s hsf
     split
-    · exact stepB_interruptArm cfg hs hr P hP h1 (by simp [hsf])
-    · exact stepB_callState cfg hs hr P hP s h1 hsf
+    · exact stepB_interruptArm cfg hs hb P h1 (by simp [hsf])
+    · exact stepB_callState cfg hs hb P s h1 hsf
 
 def InnerB (idle : Status) (r : Rules) : Inner → Prop
   | .ret τ => BI idle r none τ
   | .brk τ => BI idle r none τ
   | .exhausted τ => BI idle r none τ ∧ τ.statefunc.isSome = true
 
-theorem innerB_inner (cfg : Cfg) (hs : cfg.hasStates = true) (hr : BusyRules cfg.rules) (P : Prog)
-    (hP : BusyProg cfg.rules P) (n : Nat) {σ : SM} (h : BI idle cfg.rules none σ) (hsf : σ.statefunc.isSome = true) :
+theorem innerB_inner (cfg : Cfg) (hs : cfg.hasStates = true) (hb : cfg.rules.busy < cfg.rules.error) (P : Prog)
+    (n : Nat) {σ : SM} (h : BI idle cfg.rules none σ) (hsf : σ.statefunc.isSome = true) :
     InnerB idle cfg.rules (inner cfg P n σ) := by
   induction n generalizing σ with
   | zero => exact ⟨h, hsf⟩
   | succ n ih =>
-    have h1 := stepB_stepOnce cfg hs hr P hP h
+    have h1 := stepB_stepOnce cfg hs hb P h
     unfold inner
     split
     · rename_i τ he; rw [he] at h1; exact h1
@@ -477,8 +597,8 @@ theorem startOf_isSome (nt : Option Req) : (startOf nt).isSome = isStartReq nt :
   | none => rfl
   | some t => cases t <;> rfl
 
-theorem bi_takeTask (cfg : Cfg) (hs : cfg.hasStates = true) (hr : BusyRules cfg.rules) (P : Prog)
-    (hP : BusyProg cfg.rules P) {σ : SM} (h : BI idle cfg.rules none σ) :
+theorem bi_takeTask (cfg : Cfg) (hs : cfg.hasStates = true) (hb : cfg.rules.busy < cfg.rules.error) (P : Prog)
+    {σ : SM} (h : BI idle cfg.rules none σ) :
     BI idle cfg.rules none (takeTask cfg P σ) := by
   unfold takeTask
   cases hnt : σ.nextTask with
@@ -488,97 +608,106 @@ theorem bi_takeTask (cfg : Cfg) (hs : cfg.hasStates = true) (hr : BusyRules cfg.
     have hg := h.good
     have hp := h.pending
     simp only [ob] at hp
+    have kl : ((observe idle σ.trace).step .take).lax cfg.rules = (observe idle σ.trace).lax cfg.rules :=
+      lax_congr (by simp only [Obs.step]) (by simp only [Obs.step])
     have h1 : BI idle cfg.rules (startOf (some t)) (SM.log { σ with nextTask := none, reason := none } .take) := by
-      have hb := h.busy; have hf := h.final
-      simp only [eng, hnt] at hb hf
-      refine ⟨?_, ?_, ?_, ?_, ?_, ?_, ?_, ?_⟩ <;>
-        simp only [SM.log, ob, observe_snoc, Obs.step, always_snoc, eng, startOf_isSome]
-      · exact ⟨hg, by simp [okB, okBusy, okFinal]⟩
-      · exact h.cur
-      · rw [hp, hnt]
-      · exact h.requesting
-      · exact h.idle
-      · intro he; apply hb; simpa [isStartReq] using he
+      have hb' := h.busy; have hf := h.final
+      simp only [eng, hnt] at hb' hf
+      refine ⟨?_, ?_, ?_, ?_, ?_, ?_, ?_, ?_, ?_, ?_⟩ <;>
+        simp only [SM.log, ob, observe_snoc, always_snoc, eng, startOf_isSome]
+      · exact ⟨hg, okB_other _ (by intro st hh; cases hh)⟩
+      · simp only [Obs.step]; exact h.cur
+      · simp only [Obs.step]
+      · simp only [Obs.step]; rw [hp, hnt]
+      · simp only [Obs.step]; exact h.requesting
+      · simp only [Obs.step]; exact h.idl
+      · intro s hs'; simp only [Obs.step]; exact h.curDecl s hs'
+      · intro s hs'; simp [startState] at hs'
+      · intro he hl; rw [kl] at hl; apply hb' _ hl; simpa [isStartReq] using he
       · intro he; apply hf; simpa [isStartReq] using he
     generalize SM.log { σ with nextTask := none, reason := none } .take = σ1 at h1 ⊢
     cases t with
     | stop st => exact h1
     | start s cl kw ovr =>
       simp only [startOf] at h1 ⊢
-      obtain ⟨h2, e2⟩ := bi_newState cfg hs hr P hP (some s) h1 (fun _ => Or.inr rfl) (fun _ => rfl)
+      obtain ⟨h2, e2⟩ := bi_newState cfg hs hb P (some s) h1 (fun _ => Or.inr rfl) (fun _ => rfl)
       generalize newState cfg P σ1 (some s) = σ2 at h2 e2 ⊢
       have hg2 := h2.good
-      have hb2 : isBusy cfg.rules σ2.status = true := h2.busy (by simp [eng])
-      refine ⟨?_, ?_, ?_, ?_, ?_, ?_, ?_, ?_⟩ <;>
-        simp only [SM.log, ob, observe_snoc, Obs.step, always_snoc, eng]
-      · exact ⟨hg2, by simp [okB, okBusy, okFinal]⟩
-      · exact h2.cur
-      · exact h2.pending
-      · exact h2.requesting
-      · exact h2.idle
-      · intro _; exact hb2
+      have kl2 : ((observe idle σ2.trace).step (.pickup s cl (updAttrs σ2.attrs kw))).lax cfg.rules =
+          (observe idle σ2.trace).lax cfg.rules := lax_congr (by simp only [Obs.step]) (by simp only [Obs.step])
+      refine ⟨?_, ?_, ?_, ?_, ?_, ?_, ?_, ?_, ?_, ?_⟩ <;>
+        simp only [SM.log, ob, observe_snoc, always_snoc, eng]
+      · exact ⟨hg2, okB_other _ (by intro st hh; cases hh)⟩
+      · simp only [Obs.step]; exact h2.cur
+      · simp only [Obs.step]; exact h2.pending
+      · simp only [Obs.step]
+      · simp only [Obs.step]; exact h2.requesting
+      · simp only [Obs.step]; exact h2.idl
+      · intro s' hs'; simp only [Obs.step]; exact h2.curDecl s' hs'
+      · intro s' hs'; simp only [Obs.step]; exact h2.pendDecl s' hs'
+      · intro _ hl; rw [kl2] at hl; exact h2.busy (by simp [eng]) hl
       · intro he; simp [e2] at he
 
-theorem bi_pickup (cfg : Cfg) (hs : cfg.hasStates = true) (hr : BusyRules cfg.rules) (P : Prog)
-    (hP : BusyProg cfg.rules P) {σ : SM} (h : BI idle cfg.rules none σ) :
+theorem bi_pickup (cfg : Cfg) (hs : cfg.hasStates = true) (hb : cfg.rules.busy < cfg.rules.error) (P : Prog)
+    {σ : SM} (h : BI idle cfg.rules none σ) :
     BI idle cfg.rules none (pickup cfg P σ) := by
-  obtain ⟨h1, _⟩ := bi_absorb cfg hs hr P hP h
+  obtain ⟨h1, _⟩ := bi_absorb cfg hs hb P h
   unfold pickup
   simp only
   split
-  · exact bi_takeTask cfg hs hr P hP h1
+  · exact bi_takeTask cfg hs hb P h1
   · exact h1
 
-theorem bi_finishRun (cfg : Cfg) (hs : cfg.hasStates = true) (hr : BusyRules cfg.rules) (P : Prog)
-    (hP : BusyProg cfg.rules P) {σ : SM} (h : BI idle cfg.rules none σ) :
+theorem bi_finishRun (cfg : Cfg) (hs : cfg.hasStates = true) (hb : cfg.rules.busy < cfg.rules.error) (P : Prog)
+    {σ : SM} (h : BI idle cfg.rules none σ) :
     BI idle cfg.rules none (finishRun cfg P σ) :=
-  (bi_newState cfg hs hr P hP none h (fun hh => by cases hh) (fun hh => by cases hh)).1
+  (bi_newState cfg hs hb P none h (fun hh => by cases hh) (fun hh => by cases hh)).1
 
-theorem bi_chainLimit (cfg : Cfg) (hs : cfg.hasStates = true) (hr : BusyRules cfg.rules) (P : Prog)
-    (hP : BusyProg cfg.rules P) {σ : SM} (h : BI idle cfg.rules none σ) (hsf : σ.statefunc.isSome = true) :
+theorem bi_chainLimit (cfg : Cfg) (hs : cfg.hasStates = true) (hb : cfg.rules.busy < cfg.rules.error) (P : Prog)
+    {σ : SM} (h : BI idle cfg.rules none σ) (hsf : σ.statefunc.isSome = true) :
     BI idle cfg.rules none (chainLimit cfg P σ) := by
-  obtain ⟨h1, e1⟩ := bi_doCleanup cfg hs hr P hP .error h hsf
+  obtain ⟨h1, e1⟩ := bi_doCleanup cfg hs hb P .error h hsf
   unfold chainLimit
   simp only
   generalize doCleanup cfg P σ .error = c at h1 e1 ⊢
   split
   · rename_i s _
-    exact (bi_newState cfg hs hr P hP (some s) h1 (fun _ => Or.inl (by rw [e1]; exact hsf)) (fun hh => by cases hh)).1
-  · exact bi_pickup cfg hs hr P hP (bi_finishRun cfg hs hr P hP h1)
+    exact (bi_newState cfg hs hb P (some s) h1 (fun _ => Or.inl (by rw [e1]; exact hsf)) (fun hh => by cases hh)).1
+  · exact bi_pickup cfg hs hb P (bi_finishRun cfg hs hb P h1)
 
-theorem bi_outerBody (cfg : Cfg) (hs : cfg.hasStates = true) (hr : BusyRules cfg.rules) (P : Prog)
-    (hP : BusyProg cfg.rules P) {σ : SM} (h : BI idle cfg.rules none σ) :
+theorem bi_outerBody (cfg : Cfg) (hs : cfg.hasStates = true) (hb : cfg.rules.busy < cfg.rules.error) (P : Prog)
+    {σ : SM} (h : BI idle cfg.rules none σ) :
     BI idle cfg.rules none (outerBody cfg P σ).sm := by
   unfold outerBody
   split
-  · exact bi_pickup cfg hs hr P hP h
+  · exact bi_pickup cfg hs hb P h
   · rename_i s hsf
-    have h1 := innerB_inner cfg hs hr P hP cfg.maxloops h (by simp [hsf])
+    have h1 := innerB_inner cfg hs hb P cfg.maxloops h (by simp [hsf])
     revert h1
     generalize inner cfg P cfg.maxloops σ = c
     intro h1
     cases c with
     | ret τ => exact h1
-    | brk τ => exact bi_pickup cfg hs hr P hP (bi_finishRun cfg hs hr P hP h1)
-    | exhausted τ => exact bi_chainLimit cfg hs hr P hP h1.1 h1.2
+    | brk τ => exact bi_pickup cfg hs hb P (bi_finishRun cfg hs hb P h1)
+    | exhausted τ => exact bi_chainLimit cfg hs hb P h1.1 h1.2
 
-theorem bi_outer (cfg : Cfg) (hs : cfg.hasStates = true) (hr : BusyRules cfg.rules) (P : Prog)
-    (hP : BusyProg cfg.rules P) (n : Nat) {σ : SM} (h : BI idle cfg.rules none σ) :
+theorem bi_outer (cfg : Cfg) (hs : cfg.hasStates = true) (hb : cfg.rules.busy < cfg.rules.error) (P : Prog)
+    (n : Nat) {σ : SM} (h : BI idle cfg.rules none σ) :
     BI idle cfg.rules none (outer cfg P n σ) := by
   induction n generalizing σ with
   | zero => exact h
   | succ n ih =>
-    have h1 := bi_outerBody cfg hs hr P hP h
+    have h1 := bi_outerBody cfg hs hb P h
     unfold outer
     split
     · rename_i τ he; rw [he] at h1; exact h1
     · rename_i τ he; rw [he] at h1; exact ih h1
 
-theorem bi_cycleMachine (cfg : Cfg) (hs : cfg.hasStates = true) (hr : BusyRules cfg.rules) (P : Prog)
-    (hP : BusyProg cfg.rules P) {σ : SM} (h : BI idle cfg.rules none σ) :
+theorem bi_cycleMachine (cfg : Cfg) (hs : cfg.hasStates = true) (hb : cfg.rules.busy < cfg.rules.error) (P : Prog)
+    {σ : SM} (h : BI idle cfg.rules none σ) :
     BI idle cfg.rules none (cycleMachine cfg P σ) := by
   have h1 : BI idle cfg.rules none (σ.log .cycleBegin) := bi_neutral (e := .cycleBegin) rfl rfl rfl rfl rfl rfl h
-  have h2 := bi_outer cfg hs hr P hP 2 h1
+  have h2 := bi_outer cfg hs hb P 2 h1
   unfold cycleMachine cycle endCycle
   simp only [hs, if_true]
   generalize outer cfg P 2 (σ.log .cycleBegin) = τ at h2 ⊢
@@ -586,50 +715,93 @@ theorem bi_cycleMachine (cfg : Cfg) (hs : cfg.hasStates = true) (hr : BusyRules 
     bi_neutral (e := .cycleEnd _ _) rfl rfl rfl rfl rfl rfl h2
   generalize τ.log (.cycleEnd τ.statefunc.isSome τ.nextTask.isSome) = υ at h3 ⊢
   have hg := h3.good
-  have c1 := h3.cur; have c2 := h3.pending; have c3 := h3.taken; have c4 := h3.requesting; have c5 := h3.idle
-  simp only [ob] at c1 c2 c3 c4 c5
-  have hb := h3.busy; have hf := h3.final
-  simp only [eng] at hb hf
-  refine ⟨?_, ?_, ?_, ?_, ?_, ?_, ?_, ?_⟩ <;>
-    simp only [SM.log, ob, observe_snoc, Obs.step, always_snoc, eng]
-  · refine ⟨hg, ?_⟩
-    simp only [okB, okBusy, okFinal, Obs.engaged, c1, c2, c3, c4, c5, Nat.lt_irrefl, if_false]
-    cases he : (υ.statefunc.isSome || isStartReq υ.nextTask || (none : Option Req).isSome) with
-    | true => simp [hb he]
-    | false => simp [hf he]
+  have heng := h3.engaged
+  refine ⟨?_, ?_, ?_, ?_, ?_, ?_, ?_, ?_, ?_, ?_⟩ <;>
+    simp only [SM.log, ob, observe_snoc, always_snoc, eng]
+  · exact ⟨hg, okB_status h3.requesting (fun he hl => h3.busy (by rw [← heng]; exact he) hl)
+      (fun he => by rw [h3.idl]; exact h3.final (by rw [← heng]; exact he))⟩
   · exact h3.cur
   · exact h3.pending
   · exact h3.taken
   · exact h3.requesting
-  · exact h3.idle
-  · exact hb
-  · exact hf
+  · exact h3.idl
+  · exact h3.curDecl
+  · exact h3.pendDecl
+  · exact h3.busy
+  · exact h3.final
 
 theorem bi_initial (idle : Status) (r : Rules) : BI idle r none (SM.initial idle) := by
-  refine ⟨always_nil _ _, rfl, rfl, rfl, rfl, rfl, ?_, ?_⟩
+  refine ⟨always_nil _ _, rfl, rfl, rfl, rfl, rfl, ?_, ?_, ?_, ?_⟩
+  · intro s hs; cases hs
+  · intro s hs; cases hs
   · intro he; simp [eng, SM.initial, isStartReq] at he
   · intro _; rfl
 
-/-- the requests of an operation sequence keep to busy status codes -/
-def BusyOps (r : Rules) (ops : List Op) : Prop := ∀ q, Op.req q ∈ ops → busyReq r q
-
-theorem bi_run (cfg : Cfg) (hs : cfg.hasStates = true) (hr : BusyRules cfg.rules) (P : Prog)
-    (hP : BusyProg cfg.rules P) (ops : List Op) (ho : BusyOps cfg.rules ops) {σ : SM} (h : BI idle cfg.rules none σ) :
+theorem bi_run (cfg : Cfg) (hs : cfg.hasStates = true) (hb : cfg.rules.busy < cfg.rules.error) (P : Prog)
+    (ops : List Op) {σ : SM} (h : BI idle cfg.rules none σ) :
     BI idle cfg.rules none (run cfg P σ ops) := by
   unfold run
   induction ops generalizing σ with
   | nil => exact h
   | cons op ops ih =>
     simp only [List.foldl_cons]
-    apply ih (fun q hq => ho q (by simp [hq]))
+    apply ih
     cases op with
-    | cycle => exact bi_cycleMachine cfg hs hr P hP h
-    | req q => exact (bi_request cfg hs hr h q (ho q (by simp))).1
+    | cycle => exact bi_cycleMachine cfg hs hb P h
+    | req q => exact (bi_request cfg hs hb h q).1
 
-/-- every status report in a history of the model satisfies both conditions of the busy clause -/
-theorem run_busy (cfg : Cfg) (hs : cfg.hasStates = true) (hr : BusyRules cfg.rules) (P : Prog)
-    (hP : BusyProg cfg.rules P) (idle : Status) (ops : List Op) (ho : BusyOps cfg.rules ops) :
+/-- every status report in a history of the model satisfies both conditions of the busy clause — whatever the program
+and the requests -/
+theorem run_busy (cfg : Cfg) (hs : cfg.hasStates = true) (hb : cfg.rules.busy < cfg.rules.error) (P : Prog)
+    (idle : Status) (ops : List Op) :
     Always idle (okB cfg.rules) (run cfg P (SM.initial idle) ops).trace :=
-  (bi_run cfg hs hr P hP ops ho (bi_initial idle cfg.rules)).good
+  (bi_run cfg hs hb P ops (bi_initial idle cfg.rules)).good
+
+/-! ### modules that declare busy status codes only -/
+
+/-- the `status=` overrides of all start requests in a history are busy -/
+def postsBusy (r : Rules) (tr : List Ev) : Bool :=
+  tr.all fun e => match e with
+    | .post (.start _ _ _ ovr) => !nonBusy r ovr
+    | _ => true
+
+theorem override_foldl {r : Rules} (tr : List Ev) (o : Obs) (h0 : nonBusy r o.override = false)
+    (hp : postsBusy r tr = true) : nonBusy r (tr.foldl Obs.step o).override = false := by
+  induction tr generalizing o with
+  | nil => exact h0
+  | cons e tr ih =>
+    simp only [List.foldl_cons]
+    simp only [postsBusy, List.all_cons, Bool.and_eq_true] at hp
+    apply ih _ _ hp.2
+    cases e with
+    | post q =>
+      cases q with
+      | start s cl kw ovr => simpa [Obs.step] using hp.1
+      | stop st => simpa [Obs.step] using h0
+    | reqDone b => cases b <;> simpa [Obs.step] using h0
+    | _ => simpa [Obs.step] using h0
+
+/-- with attached status codes and overrides all busy, no engagement is ever lax -/
+theorem lax_never {r : Rules} (hr : BusyRules r) (idle : Status) (tr : List Ev) (hp : postsBusy r tr = true) :
+    (observe idle tr).lax r = false := by
+  apply lax_of
+  · exact override_foldl tr (Obs.init idle) rfl hp
+  · intro s _
+    cases h : r.statusOf s with
+    | none => rfl
+    | some st => simp [nonBusy, hr.attached s st h]
+
+theorem strict_of_busy {r : Rules} (hr : BusyRules r) (idle : Status) (tr : List Ev) (hp : postsBusy r tr = true)
+    (h : Always idle (okBusy r) tr) : Always idle (okBusyStrict r) tr := by
+  intro pre e post hx
+  have h1 := h pre e post hx
+  have hp1 : postsBusy r pre = true := by
+    rw [hx] at hp
+    simp only [postsBusy, List.all_append, Bool.and_eq_true] at hp ⊢
+    exact hp.1
+  have hl := lax_never hr idle pre hp1
+  cases e with
+  | status st => simpa [okBusy, okBusyStrict, hl] using h1
+  | _ => rfl
 
 end Frappy.SM
